@@ -23,17 +23,6 @@ def quit_history(r, i):
     return h
 
 
-def hops_term(ops):
-    a = api()
-    hops = []
-    for k, op in enumerate(ops):
-        pr, ctrls = a[op["op"]]
-        n = len(ctrls)
-        sends = [f"({PRIO[pr]}, {ctrl_term(c, op)}, {2 * k + (1 if j == n - 1 else 0)}%nat)" for j, c in enumerate(ctrls)]
-        hops.append(f"({op['at']}, {coq_list(sends)}, {'true' if op.get('yield', True) else 'false'})")
-    return coq_list(hops)
-
-
 def env_term(script):
     ch = []
     for b in script["children"]:
@@ -85,10 +74,10 @@ def gen_scenario(r, i):
                 add(tq - r.choice([50, 150]), "stop_with_signal", sig="Terminate", grace_ms=r.choice([200, 300]))
             elif state == "deleted":
                 add(tq - 150, "delete")
-            elif state == "cloned":
-                acts.append((t_create, {"job": j, "op": "clone_keep"}))
             elif state == "finished":
                 add(tq - 200, "stop")
+        if state == "cloned":
+            acts.append((t_create, {"job": j, "op": "clone_keep"}))      # (also when the job is created in the quitting action)
         if state == "queued-controls":
             add(tq, "restart_with_signal", sig="Terminate", grace_ms=100)
             add(tq, "signal", sig="User1")
@@ -106,7 +95,28 @@ def gen_scenario(r, i):
             "same_action": same_action}
 
 
+def _three_ignoring(grace):
+    acts = []
+    for j in range(3):
+        acts += [{"job": j, "op": "create", "script": CHILD[2][1], "grouped": j == 1}, {"job": j, "op": "start"}]
+    return {"steps": [{"at_ms": 30, "acts": acts}, {"at_ms": 400, "acts": [], "quit": {"manner": "graceful", "sig": "Terminate", "grace_ms": grace}}],
+            "wait_ms": 3000, "settle_ms": 200, "tq": 400, "manner": "graceful", "qsig": "Terminate", "qgrace": grace, "same_action": False,
+            "jobs": [{"kind": 2, "grouped": j == 1, "forker": False, "state": "running", "mops": [{"at": 30, "op": "start", "yield": True}]} for j in range(3)]}
+
+
+def _same_action_cloned(manner):
+    q = {"manner": "abort"} if manner == "abort" else {"manner": "graceful", "sig": "Terminate", "grace_ms": 100}
+    return {"steps": [{"at_ms": 400, "acts": [{"job": 0, "op": "create", "script": CHILD[0][1], "grouped": False}, {"job": 0, "op": "start"},
+                                               {"job": 0, "op": "clone_keep"}], "quit": q}],
+            "wait_ms": 2500, "settle_ms": 200, "tq": 400, "manner": manner, "qsig": "Terminate", "qgrace": 100, "same_action": True,
+            "jobs": [{"kind": 0, "grouped": False, "forker": False, "state": "cloned", "mops": [{"at": 400, "op": "start", "yield": False}]}]}
+
+
 SCEN_CORPUS = [
+    # several jobs whose commands all ignore the signal: they are stopped concurrently, one grace period in total
+    _three_ignoring(400),
+    # a job created and started in the action that quits, its handle cloned and kept elsewhere
+    _same_action_cloned("graceful"), _same_action_cloned("abort"),
     # known finding: grouped command, leader exits on the signal, another member ignores it
     {"steps": [{"at_ms": 30, "acts": [{"job": 0, "op": "create", "script": CHILD[0][1] + ",fork_ignorer=1", "grouped": True}, {"job": 0, "op": "start"}]},
                {"at_ms": 400, "acts": [], "quit": {"manner": "graceful", "sig": "Terminate", "grace_ms": 250}}],
@@ -220,74 +230,9 @@ class C08(Prop):
             s["id"] = k
             scen.append(s)
         scen += [gen_scenario(r, 100 + i) for i in range(400 if big else 48)]
-        try:
-            obs = run_parallel("h_quit", "run", scen, "c08b")
-        except RuntimeError as e:
-            c.errors.append(str(e))
+        c.absorb(confirm_realtime(self.judge_b, scen))
+        if c.errors:
             return c
-        terms, idx = [], []
-        for s in scen:
-            for j, jb in enumerate(s["jobs"]):
-                env = f"(mk_env [{CHILD[jb['kind']][2]}] [] [] [])"
-                terms.append(f"(eval_quit_job {env} {hops_term(jb['mops'])} {s['tq']} {'true' if s['manner'] == 'graceful' else 'false'} "
-                             f"{SIG[s['qsig']]} {s['qgrace']} {'true' if jb['forker'] else 'false'})%N")
-                idx.append((s["id"], j))
-        mres, err = coq_eval("c08b", ["Gen.Signals_gen", "Codec.Signals", "Job.JobModel", "Run.EvalJob", "Run.EvalC08"], terms)
-        if err:
-            c.errors.append("model evaluation failed: " + err[-800:])
-            return c
-        per = {}
-        for (sid, j), m in zip(idx, mres):
-            per.setdefault(sid, []).append(dict(kv.split("=") for kv in m.split(";")))
-        for s, o in zip(scen, obs):
-            c.evaluations += 1
-            c.count("B:" + s["manner"])
-            for jb in s["jobs"]:
-                c.count("B:state=" + jb["state"])
-            brief = {"steps": s["steps"]}
-            tq = [h["t"] for h in o["hlog"] if h["k"] == "quit"]
-            ms_ = per[s["id"]]
-            if not tq:
-                c.errors.append(f"scenario {s['id']}: the quit step was never reached: {o['main']}")
-                continue
-            dur = o["t_main"] - tq[0]
-            bound = max(int(m["bound"]) for m in ms_) - s["tq"]
-            model_ok = all(m["ended"] == "T" and m["leaders"] == "0" for m in ms_)
-            if not model_ok:
-                c.disagreements.append({"case": brief, "model": ms_, "what": "model evaluation contradicts C08_quit_always_terminates"})
-            starts = {l["pid"] for l in o["child_log"] if l["ev"] == "start"}
-            grand = {l["pid"]: l["pgid"] for l in o["child_log"] if l["ev"] == "grandchild"}
-            ended_self = {l["pid"] for l in o["child_log"] if l["ev"] == "end"}
-            alive = set(o["alive_after"])
-            ok = True
-            if o["main"] == "timeout":
-                ok = False
-                c.failing.append({"case": brief, "impl": o["main"], "clause": "C08_quit_always_terminates: main did not finish after the quit"})
-            elif dur > bound + MARGIN:
-                ok = False
-                c.failing.append({"case": brief, "impl": {"quit_to_main_ms": dur}, "expected": {"bound_ms": bound, "margin": MARGIN},
-                                  "clause": "C08_quit_always_terminates: main finished later than the grace periods in effect"})
-            if alive & starts:
-                ok = False
-                c.failing.append({"case": brief, "impl": {"alive": sorted(alive & starts)}, "clause": "C08_no_leader_survives: a process started by a job survived the shutdown"})
-            gs = alive & set(grand)
-            want_group = any(m["group"] == "1" for m in ms_) and s["manner"] == "graceful"
-            if s["manner"] == "graceful":
-                if gs:
-                    # identify the known class precisely: the member's leader exited by itself (was not killed)
-                    known = all(grand[p] in ended_self for p in gs)
-                    c.failing.append({"case": brief, "impl": {"alive_group_members": sorted(gs)},
-                                      "clause": "C08: a member of the command's process group survived the graceful quit",
-                                      "klass": "group-straggler" if known else None})
-                if bool(gs) != want_group and not any(m["group"] == "?" for m in ms_) and not s["same_action"]:   # (a child signalled at birth has not forked yet)
-                    ok = False
-                    c.disagreements.append({"case": brief, "impl": {"alive_group_members": sorted(gs)}, "model": ms_, "what": "group survivors"})
-            if ok:
-                c.validated += 1
-            if starts:
-                c.nontrivial.add(json.dumps([s["manner"], s["qgrace"], s["same_action"], [(j["kind"], j["grouped"], j["forker"], j["state"]) for j in s["jobs"]]]))
-            if len(c.samples) < 3 and starts and s["manner"] == "graceful":
-                c.samples.append({"case": brief, "impl": {"quit_to_main_ms": dur, "alive": sorted(alive)}, "model": ms_})
         # ---------------- C
         cli = []
         for k, (args, ev, sigs, mapped, sq, eof, script) in enumerate([
@@ -351,6 +296,78 @@ class C08(Prop):
                     c.failing.append({"case": brief, "impl": {"alive": o["alive_after"]}, "clause": "C08_no_leader_survives: the command survived the CLI shutdown"})
             c.validated += ok
             c.nontrivial.add(json.dumps(brief))
+        return c
+
+    def judge_b(self, scen, procs):
+        c = Corr()
+        try:
+            obs = run_parallel("h_quit", "run", scen, "c08b", procs=procs)
+        except RuntimeError as e:
+            c.errors.append(str(e))
+            return c
+        terms, idx = [], []
+        for s in scen:
+            for j, jb in enumerate(s["jobs"]):
+                env = f"(mk_env [{CHILD[jb['kind']][2]}] [] [] [])"
+                terms.append(f"(eval_quit_job {env} {hops_term(jb['mops'])} {s['tq']} {'true' if s['manner'] == 'graceful' else 'false'} "
+                             f"{SIG[s['qsig']]} {s['qgrace']} {'true' if jb['forker'] else 'false'})%N")
+                idx.append((s["id"], j))
+        mres, err = coq_eval("c08b", ["Gen.Signals_gen", "Codec.Signals", "Job.JobModel", "Run.EvalJob", "Run.EvalC08"], terms)
+        if err:
+            c.errors.append("model evaluation failed: " + err[-800:])
+            return c
+        per = {}
+        for (sid, j), m in zip(idx, mres):
+            per.setdefault(sid, []).append(dict(kv.split("=") for kv in m.split(";")))
+        for s, o in zip(scen, obs):
+            c.evaluations += 1
+            c.count("B:" + s["manner"])
+            for jb in s["jobs"]:
+                c.count("B:state=" + jb["state"])
+            brief = {"id": s["id"], "steps": s["steps"]}
+            tq = [h["t"] for h in o["hlog"] if h["k"] == "quit"]
+            ms_ = per[s["id"]]
+            if not tq:
+                c.errors.append(f"scenario {s['id']}: the quit step was never reached: {o['main']}")
+                continue
+            dur = o["t_main"] - tq[0]
+            bound = max(int(m["bound"]) for m in ms_) - s["tq"]
+            model_ok = all(m["ended"] == "T" and m["leaders"] == "0" for m in ms_)
+            if not model_ok:
+                c.disagreements.append({"case": brief, "model": ms_, "what": "model evaluation contradicts C08_quit_always_terminates"})
+            starts = {l["pid"] for l in o["child_log"] if l["ev"] == "start"}
+            grand = {l["pid"]: l["pgid"] for l in o["child_log"] if l["ev"] == "grandchild"}
+            ended_self = {l["pid"] for l in o["child_log"] if l["ev"] == "end"}
+            alive = set(o["alive_after"])
+            ok = True
+            if o["main"] == "timeout":
+                ok = False
+                c.failing.append({"case": brief, "impl": o["main"], "clause": "C08_quit_always_terminates: main did not finish after the quit"})
+            elif dur > bound + MARGIN:
+                ok = False
+                c.failing.append({"case": brief, "impl": {"quit_to_main_ms": dur}, "expected": {"bound_ms": bound, "margin": MARGIN},
+                                  "clause": "C08_quit_always_terminates: main finished later than the grace periods in effect"})
+            if alive & starts:
+                ok = False
+                c.failing.append({"case": brief, "impl": {"alive": sorted(alive & starts)}, "clause": "C08_no_leader_survives: a process started by a job survived the shutdown"})
+            gs = alive & set(grand)
+            want_group = any(m["group"] == "1" for m in ms_) and s["manner"] == "graceful"
+            if s["manner"] == "graceful":
+                if gs:
+                    # identify the known class precisely: the member's leader exited by itself (was not killed)
+                    known = all(grand[p] in ended_self for p in gs)
+                    c.failing.append({"case": brief, "impl": {"alive_group_members": sorted(gs)},
+                                      "clause": "C08: a member of the command's process group survived the graceful quit",
+                                      "klass": "group-straggler" if known else None})
+                if bool(gs) != want_group and not any(m["group"] == "?" for m in ms_) and not s["same_action"]:   # (a child signalled at birth has not forked yet)
+                    ok = False
+                    c.disagreements.append({"case": brief, "impl": {"alive_group_members": sorted(gs)}, "model": ms_, "what": "group survivors"})
+            if ok:
+                c.validated += 1
+            if starts:
+                c.nontrivial.add(json.dumps([s["manner"], s["qgrace"], s["same_action"], [(j["kind"], j["grouped"], j["forker"], j["state"]) for j in s["jobs"]]]))
+            if len(c.samples) < 3 and starts and s["manner"] == "graceful":
+                c.samples.append({"case": brief, "impl": {"quit_to_main_ms": dur, "alive": sorted(alive)}, "model": ms_})
         return c
 
 
